@@ -557,6 +557,39 @@ theorem pathRules_lawful_partial :
   trans a b c ha hb hc := PathSet.goodRules_lawful.trans ⟨a, ha⟩ ⟨b, hb⟩ ⟨c, hc⟩
   hash_eq a b _ _ h := pathset_rules_hash_coherent a b h
 
+/-! ### why `transform_id_partial` carries `SetsStable` (audit item 3) -/
+
+/-- an oracle whose sets iterate in string order whatever the storage order (as cty's
+do: `Values` sorts by `Less`), all members in one bucket -/
+def X2 : SetOracle :=
+  ⟨fun _ _ => 0, fun _ _ ms => SetImpl.sortStable
+    (fun a b => match a, b with | .s x, .s y => decide (x < y) | _, _ => false) ms⟩
+
+/-- a set stored against its iteration order (what hash-tied members added in
+descending order look like) -/
+def tiedSet : Value := ⟨.set .string, .sset [0, 0] [.s "q", .s "p"]⟩
+
+/-- The conclusion of `transform_id_partial` in the form "returns the value ITSELF",
+for every shaped value of a plain well-formed type — without `SetsStable` — is
+false of the model (and of the code: the rebuilt set is another representation)… -/
+def TransformIdReturnsInput : Prop :=
+  ∀ (X : SetOracle) (σ : Sched) (v : Value), IterPerm X → SchedOk σ → shapedV v = true →
+    tyOk v.ty = true → (transform X σ idCb v).2 = .ok v
+
+theorem transform_id_returns_input_counterexample : ¬ TransformIdReturnsInput := fun h => by
+  have := h X2 Sched.sorted tiedSet (fun _ _ _ => SetImpl.sortStable_perm _ _) schedOk_sorted
+    (by decide) (by decide)
+  exact absurd this (by decide)
+
+/-- …while what the property asks — a `RawEquals` value — does hold on that witness:
+the members come back in the other storage order, the two representations iterate
+alike.  For sets like this one at arbitrary depth the `RawEquals` form is compared
+with the implementation on every run (generator `c19TiedSet`, predicate
+`transform-id`) but is NOT proved: `transform_id_rawEquals_partial` still assumes
+`SetsStable`. -/
+example : (transform X2 Sched.sorted idCb tiedSet).2 = .ok ⟨.set .string, .sset [0, 0] [.s "p", .s "q"]⟩ ∧
+    Value.rawEquals X2 ⟨.set .string, .sset [0, 0] [.s "p", .s "q"]⟩ tiedSet = .ok true := by decide
+
 example : (unmarkDeepWithPaths X1 Sched.sorted sample).map (·.2.length) = .ok 2 := by rfl
 
 end C19
